@@ -359,7 +359,7 @@ func TestC08(t *testing.T) {
 	r := ev.Start("C08", "exploration")
 	r.Rule("(1) controlled scheduler: 2-3 goroutines with short programs (decrypt / encrypt / decrypt an old-generation record / close another session / refresh on every access) park at the verif hook points where no SDK lock is held (entering and leaving the read-locked lookup of GetOrLoad, entering GetOrLoadLatest, holding a tracked key) and a controller woken by synctest.Wait releases exactly one per step; ALL interleavings are enumerated depth-first with replay for shared IK caches of capacity 1-2 under lru/lfu/slru/tinylfu, an SK cache of capacity 1 with two SK generations and per-session caches. (2) seeded stress with real goroutines under the Go race detector: 16-32 goroutines over 8-150 partitions on capacity-1/2 (synchronous) and capacity-100 (asynchronous eviction) caches with seeded yields at the same hook points. (3) the same kind of load against a factory built from the SDK's own parts with every harness monitor removed, so that the race detector sees the SDK's synchronisation only. Oracle: every operation that does not race with the close of its own session succeeds with the right bytes, the ledger sees no access to a destroyed secret, no race report has an asherah frame. Distinct+non-trivial: distinct hook-order traces in which a key was evicted while a caller held or was about to take a reference.")
 	r.Assume("gates are only placed where the parked goroutine holds no lock another goroutine of the scenario needs (otherwise synctest.Wait would never see quiescence)")
-	maxPer := ev.Pick(250, 20000)
+	maxPer := ev.Pick(250, 9000)
 	exhaustive := true
 	onlyShape := os.Getenv("VERIF_C08_SHAPE") // debugging aid: run only the stress shapes whose name contains this
 	onlyCell := os.Getenv("VERIF_C08_CELL") // debugging aid: run only the schedule cells whose name contains this
@@ -429,7 +429,7 @@ func stressC08(t *testing.T, r *ev.Run) {
 		c.SKPolicy, c.SKCap = "lru", 1
 		return c
 	}
-	opsN := ev.Pick(1500, 40000)
+	opsN := ev.Pick(1500, 24000)
 	shapes := []shape{
 		{"shared-lru-1", mk("lru", 1, true), 8, 16, opsN, 0, false},
 		{"shared-slru-2", mk("slru", 2, true), 8, 16, opsN, 0, false},
@@ -448,7 +448,7 @@ func stressC08(t *testing.T, r *ev.Run) {
 	// latest key and taking a reference on it
 	shapes = append(shapes, shape{"shared-lru-2/encrypt-heavy/hot-yields", mk("lru", 2, true), 3, 16, opsN, 85, true})
 	shapes = append(shapes, shape{"shared-slru-1/encrypt-heavy/hot-yields", mk("slru", 1, true), 2, 16, opsN, 85, true})
-	reps := ev.Pick(1, 5)
+	reps := ev.Pick(1, 3)
 	for rep := 0; rep < reps; rep++ {
 		for si, sh := range shapes {
 			if onlyShape := os.Getenv("VERIF_C08_SHAPE"); onlyShape != "" && !strings.Contains(sh.name, onlyShape) {
